@@ -74,6 +74,22 @@ CLAIMS = {
         "note": TRUSTED,
         "technique": "CFG dominance (stop checks before sends), who-may-call/who-may-write tables, configuration plumbing",
     },
+    "C14": {
+        "text": "Must-pass / plumbing / lock-discipline analysis on all paths of the current source: every phase's path from "
+                "case creation to send applies the configured overrides (strategy kwargs for examples/fuzzing, merge "
+                "after generation for coverage with the user's value written last, before_call in stateful, OverrideMark "
+                "in both pytest integrations); auth, headers, cert, verify, proxy reach the session and every engine "
+                "send site passes the engine transport kwargs; in prepare_headers the user's headers are applied with "
+                "update() after the copy of case.headers and defaults only with setdefault; explicit names are excluded "
+                "from generation; each case generator calls set_on_case before handing the case over; in "
+                "CachingAuthProvider.get the fetch and the cache write are lexically under the refresh lock, preceded by "
+                "an unconditional re-read and a freshness test on the re-read value, and nobody else writes the cache; "
+                "credentials are stripped only by the ignored_auth probe on copies. Not decided: interleavings "
+                "themselves, filters of providers (C19), value-level header semantics.",
+        "design_ref": "DESIGN.md §4 C14",
+        "note": TRUSTED,
+        "technique": "CFG must-pass-through per phase, configuration plumbing tables, double-checked-locking shape check, who-may-call/write",
+    },
     "C19": {
         "text": "Decides, on all paths of the current source, the structural clauses behind 'extensions apply exactly where "
                 "their own filters say': closure-cell ownership of the per-registration FilterSet in to_filterable_hook "
